@@ -5,6 +5,7 @@ import (
 	"fmt"
 	"net/http"
 	"net/http/httptest"
+	"net/url"
 	"reflect"
 	"strings"
 
@@ -99,7 +100,7 @@ func CheckC03(p *Pkg, e *Env, r *res.Result) {
 	} else {
 		prefixes = append(prefixes, struct{ name, v string }{"foreign-prefix", "/v1"})
 	}
-	methods := []string{"GET", "POST", "DELETE", "PATCH"}
+	methods := []string{"GET", "POST", "DELETE", "PATCH", "PUT", "HEAD", "OPTIONS", "TRACE"}
 	paths := enumPaths([]string{"a", "b", "x", ""}, 5)
 	// the base path itself, without any segment after it, is not under the base path
 	if base != "" {
@@ -244,11 +245,20 @@ func firstLine(s string) string {
 
 // escapeForURL makes a raw path acceptable to httptest.NewRequest; the request's
 // URL.Path is overwritten with the intended (decoded) path afterwards.
+// escapedBase: the base path as a client writes it into its base url ("" stays "").
+func escapedBase(b string) string {
+	if b == "" {
+		return ""
+	}
+	return escapeForURL(b)
+}
+
 func escapeForURL(p string) string {
 	if p == "" {
 		return "/"
 	}
-	return strings.ReplaceAll(strings.ReplaceAll(p, "{", "%7B"), "}", "%7D")
+	// (what a client puts on the wire for this path: braces, blanks, non-ASCII letters escaped)
+	return (&url.URL{Path: p}).EscapedPath()
 }
 
 var _ = reflect.TypeOf
